@@ -663,6 +663,7 @@ def inline_helpers(body, is_helper, depth=2, max_blocks=4000):
                 cblk['stmts'].append({'assign': t['dest'], 'rv': {'k': 'use', 'op': {'move': {'l': off_l}}}, 'span': sp})
                 cblk['term'] = {'k': 'goto', 'target': t['target'], 'span': sp}
             cblk['inlined_from'] = cb.id
+            cblk['inlined_bb'] = '%s#%d' % (cb.id, ci)
             j['blocks'].append(cblk)
             level[off_b + ci] = level[bi] + 1
             work.append(off_b + ci)
@@ -813,6 +814,21 @@ def apply_fn_aliases(j):
         if len(moved) == 1 and not same_name_missing:
             amap[moved[0]] = p
             taken.add(moved[0])
+            continue
+        if moved:
+            continue
+        # same name, same module, different signature (a free function that became a method of a new state struct, or
+        # gained / lost a parameter): the one non-reviewed private function of that name in that module
+        def module_of(path):
+            segs = path.split('::')[:-1]
+            while segs and (segs[-1][:1].isupper() or segs[-1].startswith('<')):
+                segs.pop()
+            return '::'.join(segs)
+        resig = [q for q, fn in present.items() if q not in tab and q not in taken and fn.get('vis') != 'pub' and '{' not in q and
+                 q.rsplit('::', 1)[1] == name and module_of(q) == module_of(p)]
+        if len(resig) == 1 and not [m for m in missing if m != p and m.rsplit('::', 1)[1] == name]:
+            amap[resig[0]] = p
+            taken.add(resig[0])
     if not amap:
         return {}
 
@@ -958,6 +974,8 @@ class Facts:
             # closures in different impls can share def_path_str only if identical; keep first, list all
             self.bodies.setdefault(bd.id, bd)
             self.body_list.append(bd)
+        self.pre_inline = {}
+        self.new_helpers = set()
         self.inlined_helpers = self._inline_new_helpers()
 
     def _inline_new_helpers(self):
@@ -981,10 +999,14 @@ class Facts:
                         new.add(path)
         if not new:
             return []
+        self.new_helpers = set(new)
+        for h in new:
+            self.pre_inline[h] = self.bodies[h]
         for i, b in enumerate(list(self.body_list)):
             if any((blk['term'].get('resolved') or blk['term'].get('callee')) in new for blk in b.blocks if blk['term'].get('k') == 'call'):
                 nb = inline_helpers(b, lambda cb: cb.id in new, depth=3)
                 if nb is not b:
+                    self.pre_inline.setdefault(b.id, b)
                     self.body_list[i] = nb
                     if self.bodies.get(b.id) is b:
                         self.bodies[b.id] = nb
@@ -1000,6 +1022,20 @@ class Facts:
         gone = new - still_called
         self.body_list = [b for b in self.body_list if b.id not in gone]
         return sorted(new)
+
+    def with_units(self, body, keep):
+        """(body, units): `body` with every new helper spliced in EXCEPT those accepted by keep(helper_body), which are
+        returned as units of their own.  For rules that reason about a callable unit (a guard that used to be a closure
+        and may now be a method): they look at the unit and at its call sites instead of at one merged flow graph."""
+        orig = self.pre_inline.get(body.id)
+        if orig is None:
+            return body, []
+        kept = [self.pre_inline[h] for h in sorted(self.new_helpers) if keep(self.pre_inline[h])]
+        if not kept:
+            return body, []
+        kept_ids = {k.id for k in kept}
+        nb = inline_helpers(orig, lambda cb: cb.id in self.new_helpers and cb.id not in kept_ids, depth=3)
+        return nb, kept
 
     _EXT = {
         'core::option::Option': {0: 'None', 1: 'Some'},
